@@ -1412,7 +1412,7 @@ class TT():
             torchtt.TT: the result.
         """
 
-        result = kron(self, other)
+        result = torchtt._extras.kron(other, self)
 
         return result
 
